@@ -98,6 +98,8 @@ Fixpoint calls_of (evs : list ev) : list call :=
   match evs with
   | [] => []
   | ECall c k o :: r => (c, k, o) :: calls_of r
+  | EFill c k0 n v0 sz :: r =>
+      map (fun i => (c, (k0 + i)%nat, OVal (v0 + Z.of_nat i) sz)) (seq 0 n) ++ calls_of r
   | _ :: r => calls_of r
   end.
 
@@ -148,9 +150,10 @@ Fixpoint spec_run (strict : bool) (lim : Z) (cl : list call) (evs : list ev) (im
   | [], [] => true
   | e :: er, o :: ir =>
       let ncache' := match e with ENew | ERelBucketsNew => S ncache | _ => ncache end in
-      let ncall' := match e with ECall _ _ _ => S ncall | _ => ncall end in
+      let ncall' := match e with ECall _ _ _ => S ncall | EFill _ _ n _ _ => (ncall + n)%nat | _ => ncall end in
       let rel' := match e with ERelease c => c :: rel | _ => rel end in
-      let seen' := seen ++ in_loader_from (o_thr o) 0%nat in
+      (* the loaders of a fill all run (fresh keys; the harness checks it) *)
+      let seen' := seen ++ match e with EFill _ _ n _ _ => seq ncall n | _ => [] end ++ in_loader_from (o_thr o) 0%nat in
       (* coherence *)
       Nat.eqb (length (o_thr o)) ncall' && thrs_ok cl seen' 0%nat (o_thr o) &&
       (* accounting: the size the cleaner accounts = sum of live entries (also while savers are parked at
